@@ -77,7 +77,8 @@ def gen_case(rng):
     pre_exit = [g["id"] for g in gws if g["id"] not in masters and g["spec"] != "socket" and rng.random() < 0.25]
     if len(pre_exit) == len(gws):
         pre_exit = pre_exit[:-1]
-    return {"gateways": gws, "action": "terminate", "timeout": rng.choice((0, 0.1, 0.5, 1.0)), "has_via": has_via, "pre_exit": pre_exit}
+    return {"gateways": gws, "action": "terminate", "timeout": rng.choice((0, 0.1, 0.5, 1.0)), "has_via": has_via, "pre_exit": pre_exit,
+            "pre_exit_replace": [g for g in pre_exit if rng.random() < 0.5]}
 
 
 def bound_for(case):
@@ -99,7 +100,10 @@ def run_initiator(case, out, wait_for="terminate_done", total_timeout=None):
     with open(cf, "w") as f:
         json.dump(case, f)
     errf = open(os.path.join(d, "stderr.txt"), "wb")
-    p = subprocess.Popen([core.PY, "-m", "vlib.initiator", cf], cwd=core.VERIF, env=core.child_env({"VERIF_TAG": tag}),
+    extra_env = {"VERIF_TAG": tag}
+    if case.get("variant") == "concurrent_auto":
+        extra_env["EXECNET_VERIF"] = "noise:%d:0.1:2" % (hash(tag) & 0xFFFF)  # line-level schedule noise inside the initiator
+    p = subprocess.Popen([core.PY, "-m", "vlib.initiator", cf], cwd=core.VERIF, env=core.child_env(extra_env),
                          stdout=subprocess.PIPE, stderr=errf, stdin=subprocess.DEVNULL, start_new_session=True)
     events = []
     got = threading.Event()
@@ -197,6 +201,11 @@ def run_shard(spec):
         cases[1] = {"gateways": [{"spec": "popen", "id": "g0", "execmodel": "thread", "activity": "stopped"},
                                  {"spec": "socket", "id": "g1", "execmodel": "thread", "activity": "idle", "master": "g0"}],
                     "action": "terminate", "timeout": 0, "has_via": False, "pre_exit": []}
+        # stuck members retired with exit(), their ids taken over by replacements before terminate() runs
+        cases[2] = {"gateways": [{"spec": "popen", "id": "g0", "execmodel": "thread", "activity": "stopped"},
+                                 {"spec": "python", "id": "g1", "execmodel": "main_thread_only", "activity": "sigint_ignored"},
+                                 {"spec": "popen", "id": "g2", "execmodel": "thread", "activity": "idle"}],
+                    "action": "terminate", "timeout": 0.5, "has_via": False, "pre_exit": ["g0", "g1"], "pre_exit_replace": ["g0", "g1"]}
     out: list = []
     sem = threading.Semaphore(spec["conc"])
 
@@ -250,8 +259,8 @@ def run_shard(spec):
 def run_failing(spec):
     res = Result()
     variants = ["dup_explicit", "dup_explicit_python", "explicit_equals_next_auto", "dead_interpreter", "via_dup",
-                "chdir_is_file", "nice_not_a_number", "chdir_missing_parent"]
-    late = {"chdir_is_file", "nice_not_a_number", "chdir_missing_parent"}  # fail after the interpreter was bootstrapped
+                "chdir_is_file", "nice_not_a_number", "chdir_missing_parent", "concurrent_auto", "concurrent_auto"]
+    late = {"chdir_is_file", "nice_not_a_number", "chdir_missing_parent", "concurrent_auto"}  # judged after the group was terminated
     out: list = []
     cases = []
     for rep in range(spec["reps"]):
@@ -283,6 +292,13 @@ def run_failing(spec):
         # (for the variants that fail after bootstrap: right after the group was terminated - whoever owns the
         # process by then, it must not survive the group)
         leaked = [x for x in r.get("local_alive", []) if x[0] in during]
+        if v == "concurrent_auto":
+            # nothing is wrong with these calls: all of them succeed, and whatever they started is gone with the group
+            if failed:
+                res.violation("concurrent-makegateway-failed", end["outcome"][:300])
+            if leaked:
+                res.violation("failed-makegateway-left-process:concurrent_auto", f"outcome={end['outcome'][:100]} alive after group.terminate(): {leaked}")
+            continue
         if v in late:
             if not failed:
                 res.violation(f"bad-configuration-accepted:{v}", end["outcome"])
